@@ -168,7 +168,10 @@ def run_symbolic(desc, spec, timeout_s, npx, via_plot=False):
     start, dt, n = spec
     ts = grid(spec)
     try:
-        built = L.build(desc, start, ts[-1], dt, L.SymLeaves())
+        if via_plot == "run":
+            built = L.build(desc, start, ts[-1], dt, L.SymLeaves(), model_spec=BUILD_SPEC)
+        else:
+            built = L.build(desc, start, ts[-1], dt, L.SymLeaves())
     except S.SymbolicEscape as e:
         return "unknown", "engine at build: %s" % e
     except Exception as e:
@@ -179,10 +182,25 @@ def run_symbolic(desc, spec, timeout_s, npx, via_plot=False):
         built.model.reset_cache()
         ref = L.Ref(desc, start, dt, L.SymLeaves(), exp=npx.exp)
         out = []
+        if via_plot == "run":
+            try:
+                res = scenario_frame(built.model, names, spec)
+            except Exception as e:
+                return ("exc", names[0], 0, e, out)
+            for nm in names:
+                if res.get(nm) is None or sorted(res[nm]) != ts:
+                    return ("grid", nm, None if res.get(nm) is None else sorted(res[nm]))
+                for k, t in enumerate(ts):
+                    try:
+                        rv = ref.val(nm, k)
+                    except (ZeroDivisionError, OverflowError):
+                        continue
+                    out.append((nm, k, res[nm][t], rv))
+            return ("vals", out)
         for k, t in enumerate(ts):
             for nm in names:
                 try:
-                    if via_plot:
+                    if via_plot is True:
                         df = built.els[nm].plot(starttime=start, stoptime=t, dt=dt, return_df=True)
                         iv = df[nm][t]
                     else:
@@ -206,6 +224,8 @@ def run_symbolic(desc, spec, timeout_s, npx, via_plot=False):
     for p in paths:
         if p.exc is not None:
             return "unknown", "harness: %r" % (p.exc,)
+        if p.out[0] == "grid":
+            return "violated", {"_grid": "run_scenarios reports %s at times %s, grid is %s" % (p.out[1], p.out[2], ts)}
         vals = p.out[-1] if p.out[0] == "exc" else p.out[1]
         for nm, k, iv, rv in vals:
             try:
@@ -227,6 +247,22 @@ def run_symbolic(desc, spec, timeout_s, npx, via_plot=False):
             mdl["_exception"] = "%s(t=%s) raised %r" % (nm, ts[k], e)
             return "violated", mdl
     return "holds", len(paths)
+
+
+BUILD_SPEC = (1.0, 3.0, 1.0)            # run specs the model object is built with before the scenario overrides them
+
+
+def scenario_frame(model, names, spec):
+    """the model registered with bptk, run through run_scenarios under a scenario that overrides start/stop/dt (first run)"""
+    import BPTK_Py
+    from checks import scen
+    start, dt, n = spec
+    ts = grid(spec)
+    b = BPTK_Py.bptk()
+    b.register_scenario_manager({"smC01": {"model": model}})
+    b.register_scenarios(scenario_manager="smC01", scenarios={"A": {"runspecs": {"starttime": start, "stoptime": ts[-1], "dt": dt}}})
+    df = b.run_scenarios(scenarios=["A"], scenario_managers=["smC01"], equations=list(names), return_format="df")
+    return scen.from_df(df, "smC01", "A", equations=list(names))
 
 
 # ------------------------------------------------------------------ replay on the real code
@@ -264,7 +300,14 @@ def run_concrete(desc, spec, env, via_plot=False):
     start, dt, n = spec
     ts = grid(spec)
     leaves = L.FloatLeaves(env)
-    built = L.build(desc, start, ts[-1], dt, leaves)
+    if via_plot == "run":
+        built = L.build(desc, start, ts[-1], dt, leaves, model_spec=BUILD_SPEC)
+        res = scenario_frame(built.model, observed(desc), spec)
+        for nm in observed(desc):
+            if res.get(nm) is None or sorted(res[nm]) != ts:
+                return "run_scenarios reports %s at times %s, the grid is %s" % (nm, None if res.get(nm) is None else sorted(res[nm]), ts)
+    else:
+        built = L.build(desc, start, ts[-1], dt, leaves)
     ref = L.Ref(desc, start, dt, leaves, exp=math.exp)
     for k, t in enumerate(ts):
         for nm in observed(desc):
@@ -276,7 +319,9 @@ def run_concrete(desc, spec, env, via_plot=False):
             if isinstance(rv, complex) or rv != rv or abs(rv) == float("inf"):
                 continue
             try:
-                if via_plot:
+                if via_plot == "run":
+                    iv = res[nm][t]
+                elif via_plot:
                     iv = built.els[nm].plot(starttime=start, stoptime=t, dt=dt, return_df=True)[nm][t]
                 else:
                     iv = built.els[nm](t)
@@ -357,12 +402,15 @@ def run(tier):
     import BPTK_Py.sddsl.flow as fl
     import BPTK_Py.sddsl.constant as cst
     from BPTK_Py import Model
+    from BPTK_Py.sdsimulation.sd_simulation import SdSimulation
+    from BPTK_Py.scenariorunners.sd_runner import SdRunner
     rep = harness.Report(PID, tier, "translation_validation", MODULE)
     rep.encoded(stk.Stock.build_function_string, stk.Stock.initial_value.fset, stk.Stock.equation.fset,
                 fl.Flow.build_function_string, el.Element.equation.fset, el.Element.generate_function,
                 cst.Constant.equation.fset, Model.memoize, Model._lookup, ops.Delay.term, ops.Smooth.__init__,
                 ops.Trend.__init__, ops.Step.term, ops.Pulse.term, ops.Lookup.term, ops.Time.term, ops.DT.term,
-                ops.Starttime.term, ops.If.term, ops.extractTerm, ops.UnaryOperator.term, el.Element.plot)
+                ops.Starttime.term, ops.If.term, ops.extractTerm, ops.UnaryOperator.term, el.Element.plot,
+                SdSimulation.start, SdSimulation.change_runspecs, SdRunner._run_scenarios)
     timeout = 20 if tier == "quick" else 60
     models = structure_models(tier) + direct_models(tier)
     sp = specs(tier)
@@ -383,6 +431,12 @@ def run(tier):
         if tag in ("struct:in[k*S]-out[k-S]", "direct:stock:el", "struct:two-stocks", "direct:converter:lookup(time)"):
             for spec in sp[:2] + sp[3:4]:
                 tasks.append(("plot:" + tag, desc, spec, True))
+    # third observation point: bptk.run_scenarios under a scenario whose run specs override those of the model object
+    for tag, desc in models:
+        if tag in ("struct:in[k*S]-out[k-S]", "direct:stock:el", "struct:two-stocks", "direct:converter:lookup(time)",
+                   "direct:flow:delay1", "direct:converter:dt*el", "direct:stock:start+el", "direct:converter:smooth"):
+            for spec in sp:
+                tasks.append(("run:" + tag, desc, spec, "run"))
     try:
         results = harness.pmap(_task, tasks, chunksize=4)
         for (tag, desc, spec, via_plot), (r, err) in zip(tasks, results):
@@ -415,7 +469,8 @@ def run(tier):
         for sig, (spec, info, desc) in sigs:
             env = {k: float(v) for k, v in info.items() if isinstance(v, (Fraction, int, float)) and not isinstance(v, bool)}
             what = {k: v for k, v in info.items() if k.startswith("_")}
-            rep.candidate(sig, {"desc": desc, "spec": list(spec), "env": env, "via_plot": tag.startswith("plot:")},
+            rep.candidate(sig, {"desc": desc, "spec": list(spec), "env": env,
+                                     "via_plot": "run" if tag.startswith("run:") else tag.startswith("plot:")},
                           "model {%s} %s: %s" % (L.show_model(desc), spec_class(spec), what))
     rep.assume("constants, initial values, literals, lookup y-values are reals (rounding of binary64 values outside the claim); time is concrete",
                "denominators != 0", "exp, round, ** with non-small exponent: uninterpreted functions; sqrt(x) = pow(x,1/2) on both sides",
